@@ -306,6 +306,10 @@ class ModelClient:
         fit_turnout_outlier_model = model_parameters.get("fit_turnout_outlier_model", True)
         outlier_z_threshold = model_parameters.get("outlier_z_threshold", 2.0)
 
+        # every aggregate list (see get_aggregate_list) also contains the default levels of the office (ie. district in a
+        # district election), so unexpected units need those columns whether or not they were requested explicitly
+        unit_aggregates = list(aggregates) + [agg for agg in DEFAULT_AGGREGATES[office] if agg not in aggregates]
+
         (reporting_units, nonreporting_units, unexpected_units) = data.get_units(
             percent_reporting_threshold,
             turnout_factor_lower,
@@ -315,7 +319,7 @@ class ModelClient:
             fit_margin_outlier_model,
             fit_turnout_outlier_model,
             outlier_z_threshold,
-            aggregates,
+            unit_aggregates,
         )
 
         if model_parameters.get("extrapolation", False):
